@@ -165,6 +165,15 @@ def interface_sources():
         P % 'for (;;) { break; } for (int i = 0;; i += 1) { if (i > 2) { break; } }',
         P % 'all_is_win(); write(\'x\');',
         P % '{ { { } } } ;;; { ; }',
+        # parameters named like globals of another kind, in functions generated before / after the ones that use the global
+        'int[] data = [1, 2, 3];\nint total = 0;\nstring name = "n";\nint first(int data) { return data + 1; }\nint second() { return data[1] + data.length; }\nint third(const int[] total) { return total[0]; }\nint fourth() { total += 1; return total; }\n'
+        'empty fifth(byte name) { write(name); }\nempty sixth() { write(name); write(name[0]); }\n' + P % 'sleep(first(4)); sleep(second()); sleep(third(data)); sleep(fourth()); fifth(65); sixth();',
+        'int[] data = [1, 2, 3];\nint uses() { return data[0] + data.length; }\nempty @is_you(int data) { sleep(data); sleep(uses()); }',
+        'int v = 3;\nint uses() { return v * 2; }\nempty @is_you(const int[] v) { sleep(v.length); sleep(uses()); }',
+        'bool[] flags = [true, false];\nbool g1() { return flags[1]; }\nint g2(int flags) { return flags; }\nbool g3() { return flags[0]; }\n' + P % 'sleep(g2(1)); sleep(g1() is int); sleep(g3() is int);',
+        # folded arithmetic over character constants whose result leaves the byte range, in every consumer
+        P % "sleep('a' - 'z'); sleep('a' * 3); sleep(-'a'); int x = 5; sleep(x + ('0' - 'A')); writeln('A' - 'a'); write(('a' + 'b') is byte); int[] t = ['a' * 4, 'z' - 'a' - 30]; sleep(t[0] + t[1]); if ('a' - 'b' < 0) { write('n'); }",
+        "const int KD = 'A' - 'a';\nconst int KM = 'z' * 2;\nint gd = 'a' - 'z';\nint[] ga = ['a' * 3, -'b'];\n" + P % "sleep(KD); sleep(KM); sleep(gd); sleep(ga[0] + ga[1]); writeln(KD); int n[KM - 240];",
         'empty @is_you() { }\nempty @is_you(int a) { }',
         'int @is_you() { return 1; }',
         'empty f() { }',
